@@ -254,6 +254,11 @@ func (p Proxy) ServeHTTP(w http.ResponseWriter, r *http.Request) (int, error) {
 		if host.UpstreamHeaders != nil {
 			// modify headers for request that will be sent to the upstream host
 			mutateHeadersByRules(outreq.Header, host.UpstreamHeaders, replacer, host.UpstreamHeaderReplacements)
+			if outreq.Body != nil && !requiresBuffering {
+				// a rule that uses {request_body} reads the body ahead and
+				// hands it back on r: the outgoing request sends that
+				outreq.Body = r.Body
+			}
 			if hostHeaders, ok := outreq.Header["Host"]; ok && len(hostHeaders) > 0 {
 				outreq.Host = hostHeaders[len(hostHeaders)-1]
 			}
